@@ -1076,7 +1076,29 @@ impl TcpClient {
         let mut a = self.a.clone();
         let mut sport = self.sport;
         let mut dport = self.dport;
-        if readdr {
+        if readdr && rng.chance(1, 2) {
+            // exactly one component of the tuple differs: whatever the responder keeps per
+            // "endpoint" under too small a key (a cache, a last-seen field) shows as interference
+            let is6 = matches!(a.src, IpAddr::V6(_));
+            match rng.below(4) {
+                0 => dport = if rng.chance(1, 2) { rng.edge_port() } else { dport.wrapping_add(rng.range(1, 2000) as u16) },
+                1 => sport = sport.wrapping_add(rng.range(1, 1000) as u16),
+                2 => {
+                    let b = pick_addr(plan, rng, self.peer, is6, false);
+                    a.dst = b.dst;
+                    a.dmac = b.dmac;
+                }
+                _ => {
+                    a.src = match a.src {
+                        IpAddr::V4(x) => IpAddr::V4(Ipv4Addr::from(u32::from(x) ^ (1u32 << rng.below(32)))),
+                        IpAddr::V6(x) => IpAddr::V6(Ipv6Addr::from(u128::from(x) ^ (1u128 << rng.below(128)))),
+                    };
+                }
+            }
+            if a.src == self.a.src && a.dst == self.a.dst && sport == self.sport && dport == self.dport {
+                sport = sport.wrapping_add(1);
+            }
+        } else if readdr {
             let v6 = if rng.chance(1, 2) { !matches!(a.src, IpAddr::V6(_)) } else { matches!(a.src, IpAddr::V6(_)) };
             a = pick_addr(plan, rng, self.peer, v6, false);
             sport = rng.edge_port();
@@ -1159,6 +1181,34 @@ impl TcpClient {
 
 impl UdpClient {
     pub fn twin(&self, plan: &Plan, rng: &mut Rng) -> UdpClient {
+        if rng.chance(1, 2) {
+            // exactly one component of the tuple differs (see TcpClient::twin)
+            let mut t = UdpClient {
+                peer: self.peer,
+                a: self.a.clone(),
+                sport: self.sport,
+                dport: self.dport,
+                msgs: self.msgs.clone(),
+                ttl: self.ttl,
+            };
+            let is6 = matches!(t.a.src, IpAddr::V6(_));
+            match rng.below(4) {
+                0 => t.dport = if rng.chance(1, 2) { rng.edge_port() } else { t.dport.wrapping_add(rng.range(1, 2000) as u16) },
+                1 => t.sport = t.sport.wrapping_add(rng.range(1, 1000) as u16),
+                2 => {
+                    let b = pick_addr(plan, rng, self.peer, is6, false);
+                    t.a.dst = b.dst;
+                    t.a.dmac = b.dmac;
+                }
+                _ => {
+                    t.a.src = match t.a.src {
+                        IpAddr::V4(x) => IpAddr::V4(Ipv4Addr::from(u32::from(x) ^ (1u32 << rng.below(32)))),
+                        IpAddr::V6(x) => IpAddr::V6(Ipv6Addr::from(u128::from(x) ^ (1u128 << rng.below(128)))),
+                    };
+                }
+            }
+            return t;
+        }
         let v6 = if rng.chance(1, 2) { !matches!(self.a.src, IpAddr::V6(_)) } else { matches!(self.a.src, IpAddr::V6(_)) };
         UdpClient {
             peer: self.peer,
